@@ -493,6 +493,8 @@ var lineKinds = []string{
 	"main.f(0x1}})", "main.f({0x1, 0x2}}}, 0x3)", "  ", "created by net/http.", "net/http.(*conn)",
 }
 
+var reHexAddr = regexp.MustCompile(`0x[0-9a-f]+`)
+var reGorID = regexp.MustCompile(`goroutine \d+:`)
 var reNumber = regexp.MustCompile(`0x[0-9a-f]+|\d+`)
 var reLaterHeader = regexp.MustCompile(`(?m)^[ \t]*goroutine \d+ \[[^\n]*\]:`)
 
@@ -640,6 +642,18 @@ func opScan(r *rand.Rand, n int, tier, mix string) {
 			switch r.Intn(4) {
 			case 0:
 				base = printRace(g.race())
+				if r.Intn(5) == 0 {
+					// the first operation header carries a number that does not fit (address of 17 hex digits / id of 20 digits)
+					ls := strings.SplitAfter(base, "\n")
+					if len(ls) > 2 {
+						if r.Intn(2) == 0 {
+							ls[2] = reHexAddr.ReplaceAllString(ls[2], "0x10000000000000000")
+						} else {
+							ls[2] = reGorID.ReplaceAllString(ls[2], "goroutine 99999999999999999999:")
+						}
+						base = strings.Join(ls, "")
+					}
+				}
 			case 1:
 				base = genJunk(r, 2, false, false) + printDump(g.dump(1+r.Intn(3), 5), g.variant(), true) + genJunk(r, 2, false, false)
 			case 2:
